@@ -208,7 +208,8 @@ pub fn gen_repro_reset(a: &Args, out: &mut Out, run0: u64, npairs: u64) {
     let prog = assemble_src(crate::scen::PROG_ECHO);
     crate::machine::set_pair_tag("repro");
     for k in 0..npairs {
-        let init = match k % 3 { 0 => MachineInitStrategy::Known { value: rng.random() }, _ => MachineInitStrategy::Seeded { seed: rng.random_range(0..1_000_000u64) } };
+        // (a seeded machine logs its whole memory in the header: one pair in three)
+        let init = match k % 3 { 0 => MachineInitStrategy::Seeded { seed: rng.random_range(0..1_000_000u64) }, _ => MachineInitStrategy::Known { value: rng.random() } };
         let flags = SimFlags { strict: false, use_real_traps: chance(&mut rng, 50), machine_init: init,
                                debug_frames: chance(&mut rng, 50), ignore_privilege: false };
         let nt = rng.random_range(0..3usize);
